@@ -276,6 +276,12 @@ int main(int argc, char **argv)
                 int nupd = rng_below(&r, 4) == 0 ? (int) rng_below(&r, 3) : (int) rng_below(&r, 14);
                 /* junk in the context before init: init must not depend on it */
                 xs_bytes(rng_u64(&r), ctx, A->ctx_size);
+                {       /* C20 paired executions: a different junk pattern, same declared inputs (rng stream untouched) */
+                        const char *pz = getenv("VERIF_POISON");
+                        if (pz && atoi(pz))
+                                for (size_t q = 0; q < A->ctx_size; q++)
+                                        ctx[q] ^= (uint8_t) (0x6B * atoi(pz) + q * 13);
+                }
                 fprintf(fo, "E %s %s\n", A->alg, F->fam);
                 fprintf(fr, "E\n");
                 fprintf(fo, "I %llu\n", (unsigned long long) mseed);
